@@ -66,6 +66,10 @@ pub fn clear() {
 
 /// Parent side: read all crumbs from a directory.
 pub fn read_all(dir: &std::path::Path) -> Vec<serde_json::Value> {
+    read_all_with_paths(dir).into_iter().map(|x| x.1).collect()
+}
+
+pub fn read_all_with_paths(dir: &std::path::Path) -> Vec<(PathBuf, serde_json::Value)> {
     let mut out = vec![];
     if let Ok(rd) = std::fs::read_dir(dir) {
         for e in rd.flatten() {
@@ -77,7 +81,7 @@ pub fn read_all(dir: &std::path::Path) -> Vec<serde_json::Value> {
                 if data.len() >= 9 + n {
                     if let Ok(v) = serde_json::from_slice::<serde_json::Value>(&data[9..9 + n]) {
                         if v.get("kind").is_some() {
-                            out.push(v);
+                            out.push((e.path(), v));
                         }
                     }
                 }
